@@ -98,6 +98,26 @@ def directed():
              {"op": "restore", "w": "w1"}, {"op": "rotate", "m": "ma", "fee": 0}, {"op": "mint", "w": "w1", "m": "ma", "amt": 31},
              {"op": "restore", "w": "w1"}]
     hs.append({"mints": two[:1], "wallets": ws[:2], "ops": many})
+    # tokens of every kind (plain, P2PK, P2PK with SIG_ALL; with and without fees) redeemed by a wallet whose default mint is another
+    # one (swap to the trusted mint: swap / melt at the issuing mint, mint at the own one) and by one at the same mint
+    for fee in (0, 100):
+        ops = [{"op": "mint", "w": "w1", "m": "ma", "amt": 100}]
+        kinds = [{"op": "send", "amt": 13}, {"op": "sendlocked", "amt": 9, "to": "w3"}, {"op": "sendlocked", "amt": 12, "to": "w3", "sigall": True},
+                 {"op": "sendlocked", "amt": 7, "to": "w2", "sigall": True}, {"op": "send", "amt": 8, "fees": True}]
+        for i, k in enumerate(kinds):
+            ops.append(dict(k, w="w1", m="ma"))
+        ops += [{"op": "receive", "w": "w3", "tok": "t1", "swap": True}, {"op": "receive", "w": "w3", "tok": "t2", "swap": True},
+                {"op": "receive", "w": "w3", "tok": "t3", "swap": True}, {"op": "receive", "w": "w2", "tok": "t4"},
+                {"op": "receive", "w": "w3", "tok": "t5", "swap": True}, {"op": "send", "w": "w3", "m": "mb", "amt": 5},
+                {"op": "mintswap", "w": "w1", "from": "ma", "to": "mb", "amt": 10}]
+        for trust in (None, []):
+            # trust = []: ma is an untrusted mint for w3 (it is not in its list) until it receives from it without swapping
+            wl = [dict(w, trust=trust) if (w["name"] == "w3" and trust is not None) else w for w in ws]
+            hs.append({"mints": [{"name": "ma", "fee": fee, "policy": "min1"}, {"name": "mb", "fee": 0, "policy": "min1"}], "wallets": wl,
+                       "ops": ops + ([{"op": "sendlocked", "w": "w1", "m": "ma", "amt": 6, "to": "w3", "sigall": True}, {"op": "receive", "w": "w3", "tok": "t7", "swap": True},
+                                      {"op": "send", "w": "w1", "m": "ma", "amt": 4}, {"op": "receive", "w": "w3", "tok": "t8"},
+                                      {"op": "sendlocked", "w": "w1", "m": "ma", "amt": 6, "to": "w3", "sigall": True}, {"op": "receive", "w": "w3", "tok": "t9", "swap": True}]
+                                     if trust is not None else [])})
     # proofs on the old and on the new keyset after a rotation, spent together: sends around and above what the old keyset holds
     for fee in (0, 100):
         for old, new, amts in ((3, 12, (4, 2, 5)), (7, 9, (8, 3)), (5, 10, (6, 6)), (1, 14, (2, 9)), (15, 16, (16, 10))):
